@@ -4,6 +4,7 @@ pub mod c07;
 pub mod c12;
 pub mod c13;
 pub mod c15;
+pub mod c16;
 
 use crate::monitor::{Config, Local};
 use serde_json::Value;
@@ -19,6 +20,7 @@ pub fn dispatch(prop: &str) -> Option<(RunFn, ReplayFn)> {
         "C12" => (c12::run, c12::replay),
         "C13" => (c13::run, c13::replay),
         "C15" => (c15::run, c15::replay),
+        "C16" => (c16::run, c16::replay),
         _ => return None,
     })
 }
